@@ -417,6 +417,35 @@ func (sc *scenario) packMode() bool {
 	return n%3 == 0
 }
 
+// argForm says how this scenario's value options reach the library (for the input distribution in the evidence)
+func (sc *scenario) argForm() string {
+	run, packed, spelled := 0, false, false
+	for i, o := range sc.Opts {
+		if i < sc.Defaults || !plainValueOpt(o) {
+			run = 0
+			continue
+		}
+		run++
+		if run >= 2 && sc.packMode() {
+			packed = true
+		}
+		if o.Vid > 0 {
+			switch {
+			case o.Kind == "named" && o.Vid%5 == 3, o.Kind == "namedsub" && o.Vid%5 == 4, o.Kind == "typed" && (o.Vid%5 == 2 || o.Vid%5 == 4),
+				o.Kind == "typedsub" && (o.Vid%4 == 1 || o.Vid%4 == 2):
+				spelled = true
+			}
+		}
+	}
+	switch {
+	case packed:
+		return "valueset"
+	case spelled:
+		return "spelled"
+	}
+	return "plain"
+}
+
 func plainValueOpt(o optSpecC) bool {
 	switch o.Kind {
 	case "named", "namedsub", "typed", "typedsub":
